@@ -8,6 +8,10 @@ func init() {
 		"TODO",
 		"TODO",
 		"seeded schedule search over the real gracefulswitch.Balancer with scripted stub children and a recording ClientConn; linearizability check against a reference model of the swap rule"))
+	regProp("C34", wl("balancer/pickfirst (policy, happy-eyeballs timer, pickers)").doc(
+		"TODO",
+		"TODO",
+		"seeded schedule search over the real pick_first with scripted subchannel state machines and a recording ClientConn; reference model of the connection order, READY and sticky-TF rules"))
 }
 
 func wl(real ...string) *Prop {
